@@ -124,6 +124,26 @@ def gen_cases(seed, tier):
                             env.update({p_: rng.choice([0.5, 1.0, 2.0, 0.1, 4.0]) for p_ in PARAMS}); env["t"] = rng.choice([0.0, 0.5, 2.0])
                             pts.append({"env": env, "V": rng.choice([0.5, 2.5, 3.0, 0.2])})
                         cases.append({"kind": "expr", "tree": tr, "string": to_string(tr), "points": pts, "via": rng.choice(["propensity", "rule", "parse"]), "family": "volsweep"})
+    # role swap: ONE expression text compiled in several models of the same process in which its names change role (species /
+    # parameter) and position (padding species and parameters shift the indices): every build must evaluate to the written
+    # formula, whatever was compiled before (seeded change S2_C02: a parse cache keyed by text and slot numbers)
+    RN = ["na", "nb", "nc", "I", "X", "gain"]
+    def rtree(d):
+        if d == 0 or rng.random() < 0.3: return ["sp", rng.choice(RN)] if rng.random() < 0.8 else ["num", rng.choice([0.5, 2.0, 3.0])]
+        op = rng.choice(["add", "mul", "sub", "div", "pow", "max"])
+        if op == "pow": return [op, rtree(d - 1), ["num", 2.0]]
+        return [op, rtree(d - 1), rtree(d - 1)]
+    for _ in range(25 if tier == "quick" else 300):
+        tr = rtree(rng.randint(2, 3)); used = sorted(set(names(tr)))
+        if not used: continue
+        builds = []
+        for _b in range(6):
+            sp_ = [n_ for n_ in used if rng.random() < 0.5]; pr_ = [n_ for n_ in used if n_ not in sp_]
+            sp_ = ["pad_s%d" % i for i in range(rng.randint(0, 3))] + sp_; pr_ = ["pad_p%d" % i for i in range(rng.randint(0, 3))] + pr_
+            rng.shuffle(sp_); rng.shuffle(pr_)
+            builds.append({"species": sp_, "params": pr_})
+        pts = [{"env": dict({n_: rng.choice([0.25, 1.0, 2.0, 3.5, 6.0]) for n_ in used}, t=0.5), "V": 2.0} for _ in range(2)]
+        cases.append({"kind": "roles", "tree": tr, "string": to_string(tr), "builds": builds, "points": pts, "via": "propensity"})
     for _ in range(40 if tier == "quick" else 400):
         bad = rng.choice(["unknown", "function", "unbalanced", "unknown_under"])
         base = to_string(gen_tree(rng, 2))
@@ -174,9 +194,29 @@ def _sympy_tokens(string, ids):
         except Exception: return ["other"]
     return walk(tree)
 
+def _roles_case(case):
+    import numpy as np
+    from bioscrape.types import Model
+    out = {"builds": []}
+    for b in case["builds"]:
+        M = Model(species=list(b["species"]) + ["OUT"], reactions=[([], ["OUT"], "general", {"rate": case["string"]})], parameters=[(p, 1.0) for p in b["params"]],
+                  initial_condition_dict={s_: 1.0 for s_ in b["species"]})
+        term = M.get_propensities()[0].py_get_term(); s2i, p2i = M.get_species2index(), M.get_params2index(); vals = []
+        for pt in case["points"]:
+            x = np.zeros(len(s2i)); pv = np.zeros(len(p2i))
+            for s_, i in s2i.items(): x[i] = pt["env"].get(s_, 7.0)          # padding names read 7 / 9: a shifted read shows
+            for p_, i in p2i.items(): pv[i] = pt["env"].get(p_, 9.0)
+            try: vals.append(fhex(float(term.py_evaluate(x, pv, pt["env"]["t"]))))
+            except BaseException as e: vals.append(None)
+        out["builds"].append(vals)
+    return out
+
 def impl_case(case):
     import numpy as np, warnings
     warnings.simplefilter("ignore")
+    if case["kind"] == "roles":
+        try: return _roles_case(case)
+        except BaseException as e: return {"rejected": type(e).__name__, "msg": str(e)[:160]}
     try:
         term, M = _build(case["string"], case["via"])
     except BaseException as e:
@@ -237,6 +277,16 @@ def oracle(case, r):
         # the property is about ACCEPTED expressions and about rejecting malformed ones; a well-formed expression that is
         # rejected at build time (e.g. sympy rewrites Abs(exp(z)) to exp(re(z))) is counted in the evidence, not a violation
         return None
+    if case["kind"] == "roles":
+        for b, vals in zip(case["builds"], r["builds"]):
+            for pt, v in zip(case["points"], vals):
+                try: want = py_eval(case["tree"], pt["env"], None)
+                except _Und: continue
+                if not math.isfinite(want) or v is None: continue
+                if not _close(_num(v), want, 1e-9):
+                    return "value: %s evaluates to %r, the written formula gives %r at %r, in the model with species %r and parameters %r (built after other models using the same text)" % (
+                        case["string"], _num(v), want, pt["env"], b["species"], b["params"])
+        return None
     for pt, v in zip(case["points"], r["vals"]):
         for key, vol in (("plain", None), ("vol", pt["V"])):
             try: want = py_eval(case["tree"], pt["env"], vol)
@@ -257,6 +307,7 @@ def stats(cases):
     from collections import Counter
     return {"kinds": dict(Counter(c["kind"] for c in cases)), "via": dict(Counter(c["via"] for c in cases)),
             "depth": dict(Counter(str(depth(c["tree"])) for c in cases if c["kind"] == "expr")),
+            "role_swap_builds": sum(len(c["builds"]) for c in cases if c["kind"] == "roles"),
             "volume_position_sweep": sum(1 for c in cases if c.get("family") == "volsweep"),
             "colliding_names_used": sum(1 for c in cases if c["kind"] == "expr" and any(n in ("C", "S", "E", "N", "O", "Q", "I") for n in names(c["tree"])))}
 def shrink(case, fails):
